@@ -93,3 +93,19 @@ func PathsOf(fe []modzip.FileError) []string {
 }
 
 func Join(ss []string) string { return strings.Join(ss, "|") }
+
+// SweepNames returns file names with every byte value (and a few other fills: format verbs, multi-byte
+// runes, case-folding specials) at the start, in the middle and at the end of an element, and as an
+// element of its own.
+func SweepNames() []string {
+	var fills []string
+	for b := 0; b < 256; b++ {
+		fills = append(fills, string([]byte{byte(b)}))
+	}
+	fills = append(fills, "%s", "%d", "é", "É", "\u212a", "\u017f", "\ufffd", "\u2028", "\u00a0", "\xe2\x82", "~1", "..")
+	var out []string
+	for _, f := range fills {
+		out = append(out, "n"+f, f+"n", "n"+f+"m.go", "d/"+f+"x", "d"+f+"/x.go", f)
+	}
+	return out
+}
